@@ -139,7 +139,7 @@ func (r *Report) Finish() int {
 			var prev map[string]interface{}
 			if json.Unmarshal(old, &prev) == nil {
 				if pc, ok := prev["coverage"].(map[string]interface{}); ok {
-					pc["receiver_histories"] = cov
+					pc["schedule_exploration"] = cov
 					if ex, ok := pc["exhaustive"].(bool); ok {
 						pc["exhaustive"] = ex && exhaustive
 					}
@@ -152,7 +152,7 @@ func (r *Report) Finish() int {
 				}
 				if as, ok := prev["assumptions"].([]interface{}); ok {
 					for _, a := range baseAssumptions {
-						as = append(as, "receiver histories: "+a)
+						as = append(as, "schedule exploration: "+a)
 					}
 					prev["assumptions"] = as
 				}
